@@ -25,6 +25,8 @@ type walkRec struct {
 	Abort   int     `json:"abort"`
 	PreNil  bool    `json:"preNil"`
 	PostNil bool    `json:"postNil"`
+	Lazy    bool    `json:"lazy"` // the custom ChildCount reports no children for a node until its Pre callback has run
+	Nest    []int   `json:"nest"` // nodes whose Pre callback walks their children itself, with the same WalkOptions value, and returns false
 	Calls   [][]int `json:"calls"`
 }
 
@@ -90,15 +92,37 @@ func runVirtual(r *walkRec) (calls [][]int, pm string) {
 			parent = -99 // the root must have no parent
 		}
 		calls = append(calls, []int{kind, id, parent, c.Index(), idOfBlock(c.ParentBlock())})
+		if len(calls) > 4000 {
+			panic("more than 4000 callbacks on a tree of at most a dozen nodes: the walk does not end")
+		}
 	}
-	opts := &commonmark.WalkOptions{
-		ChildCount: func(nd commonmark.Node) int { return len(kids[ids[nd]]) },
+	opened := map[int]bool{}
+	nest := map[int]bool{}
+	for _, x := range r.Nest {
+		nest[x] = true
+	}
+	var opts *commonmark.WalkOptions
+	opts = &commonmark.WalkOptions{
+		ChildCount: func(nd commonmark.Node) int {
+			if r.Lazy && !opened[ids[nd]] {
+				return 0 // the children only become available through the node's Pre callback
+			}
+			return len(kids[ids[nd]])
+		},
 		Child:      func(nd commonmark.Node, i int) commonmark.Node { return nodes[kids[ids[nd]][i]] },
 	}
 	if !r.PreNil {
 		opts.Pre = func(c *commonmark.Cursor) bool {
 			record(1, c)
-			return !prune[ids[c.Node()]]
+			id := ids[c.Node()]
+			opened[id] = true
+			if nest[id] {
+				for _, k := range kids[id] {
+					commonmark.Walk(nodes[k], opts) // re-entrant use of the SAME options value
+				}
+				return false
+			}
+			return !prune[id]
 		}
 	}
 	if !r.PostNil {
@@ -106,6 +130,12 @@ func runVirtual(r *walkRec) (calls [][]int, pm string) {
 			record(2, c)
 			return ids[c.Node()] != r.Abort
 		}
+	}
+	if len(r.Nest) > 0 {
+		// the options value has been used for a complete walk before (whatever a walk leaves behind in it is there now)
+		commonmark.Walk(nodes[1], opts)
+		calls = nil
+		opened = map[int]bool{}
 	}
 	commonmark.Walk(nodes[1], opts)
 	return calls, ""
@@ -123,7 +153,7 @@ func walkCheckModel(res *Result, r *walkRec) {
 	if len(modelHistory) > 2 {
 		modelHistory = modelHistory[1:]
 	}
-	key := fmt.Sprint(r.Par, r.Blk, r.VNode, r.Prune, r.Abort, r.PreNil, r.PostNil)
+	key := fmt.Sprint(r.Par, r.Blk, r.VNode, r.Prune, r.Abort, r.PreNil, r.PostNil, r.Lazy, r.Nest)
 	if len(r.Par) >= 3 {
 		res.nontrivialKey(key)
 	}
@@ -136,7 +166,7 @@ func walkCheckModel(res *Result, r *walkRec) {
 	}
 	if fmt.Sprint(got) != fmt.Sprint(r.Calls) {
 		res.addCandidate(Candidate{Sig: map[string]any{"case": key}, Record: rec,
-			What: fmt.Sprintf("tree par=%v blk=%v vnode=%v prune=%v abort=%d preNil=%v postNil=%v: spec calls %v, Walk made %v", r.Par, r.Blk, r.VNode, r.Prune, r.Abort, r.PreNil, r.PostNil, r.Calls, got)})
+			What: fmt.Sprintf("tree par=%v blk=%v vnode=%v prune=%v abort=%d preNil=%v postNil=%v lazy=%v nest=%v: spec calls %v, Walk made %v", r.Par, r.Blk, r.VNode, r.Prune, r.Abort, r.PreNil, r.PostNil, r.Lazy, r.Nest, r.Calls, got)})
 	}
 }
 
